@@ -364,3 +364,52 @@ def parabola_minimum(z, e):
     a = (z2 * (e1 - e0) + z1 * (e0 - e2) + z0 * (e2 - e1)) / den
     b = (z2 * z2 * (e0 - e1) + z1 * z1 * (e2 - e0) + z0 * z0 * (e1 - e2)) / den
     return -b / (2 * a)
+
+
+# ----------------------------------------------------------------------------
+# self-check of the oracle against closed forms (run once per worker)
+# ----------------------------------------------------------------------------
+def selfcheck():
+    """Returns a list of failed hand checks (empty when the oracle is sound)."""
+    bad = []
+    dx = 0.7
+    # chi(i,i) = -int int_cell ln|x-x'| = dx^2 (3/2 - ln dx);  chi(i,j) is minus the same double integral over two cells
+    if abs(chi(4, 4, dx) - dx * dx * (1.5 - math.log(dx))) > 1e-14:
+        bad.append('chi(i,i)')
+    num = integrate.dblquad(lambda xp, x: math.log(abs(x - xp)), 2 * dx, 3 * dx, 0.0, dx, epsabs=1e-12)[0]   # cells i=3, j=1
+    if abs(chi(3, 1, dx) + num) > 1e-9 or abs(chi(1, 3, dx) + num) > 1e-9:
+        bad.append('chi(i,j)')
+    # classical limit of the window functional and its minimiser
+    Kb2, g0, z = 3.1, 0.02, 5.0
+    e_inf = math.pi * g0 * z - Kb2 / (4 * math.pi) * math.log(2 * z)
+    if abs(window_energy(z, 1e7 * z, Kb2, g0) - e_inf) > 1e-5:
+        bad.append('window_energy(X->inf)')
+    if abs(window_halfwidth(1e6, Kb2, g0) / classical_halfwidth(Kb2, g0) - 1) > 1e-3:
+        bad.append('window_halfwidth(X->inf)')
+    # hexagonal basal plane: a and b at 120 degrees, x along a, b has positive y
+    hexv = np.array([[3.0, 0, 0], [-1.5, 1.5 * math.sqrt(3), 0], [0, 0, 5.0]])
+    pl = Plane([2 / 3, -1 / 3, -1 / 3, 0], [0, 1, 0], hexv)
+    x, y = pl.pos_to_xy(pl.a12_to_pos([0.0, 1.0], [1.0, 0.0]))
+    if np.abs(np.array([x[0], y[0], x[1], y[1]]) - [-1.5, 1.5 * math.sqrt(3), 3.0, 0.0]).max() > 1e-12:
+        bad.append('plane frame')
+    a1, a2 = pl.pos_to_a12(pl.a12_to_pos([0.3, -1.2], [2.5, 0.1]))
+    if np.abs(np.array([a1, a2]) - [[0.3, -1.2], [2.5, 0.1]]).max() > 1e-12:
+        bad.append('pos_to_a12')
+    if np.abs(plane_normal_hkl([0, 0, 0, 1], hexv) - [0, 0, 1]).max() > 1e-14 or np.abs(plane_normal_hkl([1, 0, 0], hexv) - unit([1, 1 / math.sqrt(3), 0])).max() > 1e-12:
+        bad.append('plane normal')
+    # summation by parts: full stress term = trapezoid term + end-point term
+    rng = np.random.default_rng(5)
+    xg = 0.4 * np.arange(9) - 1.3
+    d = rng.normal(size=(9, 3))
+    tau = rng.normal(size=(3, 3))
+    if abs(stress_full(xg, d, tau)[0] - stress_trapezoid(xg, d, tau)[0] - stress_boundary_term(xg, d, tau)) > 1e-12:
+        bad.append('stress identity')
+    # a linear disregistry has constant density b/L: nonlocal term vanishes, surface term = beta_ll/4 rho_l^2 L
+    lin = np.outer(np.arange(9) / 8, [2.0, 0, 1.0])
+    if abs(nonlocal_(xg, lin, [0.3, 0.2])[0]) > 1e-13:
+        bad.append('nonlocal linear')
+    beta = np.diag([0.5, 0.0, 0.25])
+    L = xg[-1] - xg[0]
+    if abs(surface(xg, lin, beta, False)[0] - (0.5 / 4 * (2 / L) ** 2 + 0.25 / 4 * (1 / L) ** 2) * L) > 1e-13:
+        bad.append('surface linear')
+    return bad
